@@ -314,3 +314,73 @@ theorem roundF64_overflow (q : Rat) (h : overflowF64 ≤ q ∨ q ≤ -overflowF6
       have : (0 : Rat) < overflowF64 := by decide +kernel
       grind
     rw [roundF64_neg q hq, roundF64_overflow_pos (-q) (by grind)]; rfl
+
+theorem roundF64_zero' : roundF64 0 = some 0 := by simp [roundF64, roundFloat]
+
+/-- rounding is odd -/
+theorem roundF64_neg_some (q r : Rat) (h : roundF64 q = some r) : roundF64 (-q) = some (-r) := by
+  rcases rat_trichotomy q 0 with hq | hq | hq
+  · rw [roundF64_neg q hq] at h
+    cases h2 : roundF64 (-q) with
+    | none => rw [h2] at h; cases h
+    | some r2 =>
+      rw [h2] at h
+      simp only [Option.map_some, Option.some.injEq] at h
+      rw [← h, Rat.neg_neg]
+  · subst hq
+    rw [roundF64_zero'] at h; cases h
+    simpa using roundF64_zero'
+  · have hn : -q < 0 := by grind
+    rw [roundF64_neg (-q) hn, Rat.neg_neg, h]; rfl
+
+/-- a float64 is `0`, a positive value of the format, or the negative of one -/
+theorem representable_cases (r : Rat) (h : roundF64 r = some r) :
+    r = 0 ∨ (∃ m e, IsFloatRep 53 (-1074) 1024 r m e) ∨ (∃ m e, IsFloatRep 53 (-1074) 1024 (-r) m e) := by
+  rcases rat_trichotomy r 0 with hq | hq | hq
+  · right; right
+    have h2 := roundF64_neg_some r r h
+    rcases roundFloat_rep 53 (by decide) (-1074) 1024 (-r) (-r) (by grind) h2 with h0 | h'
+    · grind
+    · exact h'
+  · exact Or.inl hq
+  · right; left
+    rcases roundFloat_rep 53 (by decide) (-1074) 1024 r r hq h with h0 | h'
+    · grind
+    · exact h'
+
+theorem roundF64_nonneg (q r : Rat) (hq : 0 ≤ q) (h : roundF64 q = some r) : 0 ≤ r := by
+  rcases rat_trichotomy q 0 with h1 | h1 | h1
+  · grind
+  · subst h1; rw [roundF64_zero'] at h; cases h; exact Rat.le_refl
+  · rcases roundFloat_rep 53 (by decide) (-1074) 1024 q r h1 h with h0 | ⟨m', e', h'⟩
+    · rw [h0]; exact Rat.le_refl
+    · exact Rat.le_of_lt (isFloatRep_pos h')
+
+/-- faithful rounding, lower half: a float64 `r'` below `q` is below the rounding of `q` -/
+theorem roundF64_ge_of_representable (q r r' : Rat) (h : roundF64 q = some r) (hr' : roundF64 r' = some r')
+    (hle : r' ≤ q) : r' ≤ r := by
+  rcases rat_trichotomy q 0 with hq | hq | hq
+  · -- q < 0: -q ≤ -r', both positive
+    have hn := roundF64_neg_some q r h
+    rcases representable_cases r' hr' with h0 | ⟨m, e, hp⟩ | ⟨m, e, hp⟩
+    · grind
+    · have := isFloatRep_pos hp; grind
+    · obtain ⟨r2, e1, e2⟩ := roundFloat_le_of_rep 53 (by decide) (-1074) 1024 (-q) (-r') m e (by grind) (by grind) hp
+      have : roundF64 (-q) = some r2 := e1
+      rw [hn] at this
+      cases this
+      grind
+  · subst hq
+    rw [roundF64_zero'] at h; cases h; exact hle
+  · rcases representable_cases r' hr' with h0 | ⟨m, e, hp⟩ | ⟨m, e, hp⟩
+    · have := roundF64_nonneg q r (Rat.le_of_lt hq) h; grind
+    · exact roundFloat_ge_of_rep 53 (by decide) (-1074) 1024 q r' r m e hq hle hp h
+    · have := roundF64_nonneg q r (Rat.le_of_lt hq) h
+      have := isFloatRep_pos hp
+      grind
+
+/-- faithful rounding, upper half -/
+theorem roundF64_le_of_representable (q r r' : Rat) (h : roundF64 q = some r) (hr' : roundF64 r' = some r')
+    (hle : q ≤ r') : r ≤ r' := by
+  have := roundF64_ge_of_representable (-q) (-r) (-r') (roundF64_neg_some q r h) (roundF64_neg_some r' r' hr') (by grind)
+  grind
